@@ -437,6 +437,10 @@ func runH3(r *hk.Run, rng *hk.Rand) {
 			r.Fail(hk.Failure{Sig: "h3:panic-or-hang:" + sig, What: "exchange panicked or hung", Input: in, Got: o})
 		case success && !consistent && !undetectable:
 			r.Fail(hk.Failure{Sig: "h3:bad-message-success:" + sig, What: "a stream that ended / was reset / was closed before the message was complete, or whose DATA total differs from content-length, was reported as success", Input: in, Got: o, Want: "an error from the call or from reading the body"})
+		case success && !consistent && undetectable && g.coding != "" && o.DLen < len(g.plain) && len(g.sent) > 0:
+			// the framing cannot tell, but the coding has an end marker of its own: a coded stream
+			// that stops short is a truncated body (theorem C03_gzip_truncation_detected's premise)
+			r.Fail(hk.Failure{Sig: "h3:coded-short-success:" + sig, What: "a content-coded body whose coded stream stopped short (FIN between two frames, no declared length) was decoded to a shortened body and reported as success", Input: in, Got: o, Want: "the decoder's truncation error"})
 		case success && !consistent && undetectable:
 			r.Count("h3.fin-at-frame-boundary-without-length-undetectable")
 		case success && (o.DLen != len(ref) || !o.PrefixOK):
